@@ -46,6 +46,8 @@ type AsmData struct {
 	Bytes   []byte
 	Defined []bool
 	Line    int
+	Globl     bool
+	FlagsText string // second GLOBL operand as written ("8", "RODATA|NOPTR", …)
 }
 
 // AsmProg is the parsed set of assembly files.
@@ -243,6 +245,10 @@ func (a *AsmProg) parseFile(repo, base, src string, overlay map[string][]byte) e
 				}
 				d := a.dataFor(base, sym, l.line)
 				d.Size = int(sz)
+				d.Globl = true
+				if len(args) == 3 {
+					d.FlagsText = strings.TrimSpace(args[1])
+				}
 				for len(d.Bytes) < d.Size {
 					d.Bytes = append(d.Bytes, 0)
 					d.Defined = append(d.Defined, false)
